@@ -156,10 +156,13 @@ impl Monitor for C14 {
     }
     fn run_case(&self, kind: &str, idx: u64) -> CaseResult {
         if kind == "stress" {
-            let p = stress_program(idx, &cfg_c01());
+            // signed relational operators are judged here too: the oracle is the out-of-line
+            // version of the same program, so what they compute does not matter, and their BMI / BPL
+            // branches are part of what inlining has to rename
+            let p = stress_program(idx, &GenCfg { excl_signed_relational: idx % 2 == 0, ..cfg_c01() });
             judge(kind, idx, &p, "C14s")
         } else {
-            let p = gen_program("C01", idx, &cfg_c01());
+            let p = gen_program("C01", idx, &GenCfg { excl_signed_relational: idx % 2 == 0, ..cfg_c01() });
             judge(kind, idx, &p, "C14r")
         }
     }
